@@ -324,6 +324,21 @@ loop:
 			if !stop.keepWorking {
 				return
 			}
+			// Abandon any work-in-progress. The concReader has already drained
+			// reqc and resc. Anything this Worker still holds is for the old
+			// region of interest and must not be sent onwards. Reclaim the
+			// buffer of the unsent outWork, if any.
+			if outWork.buffer != nil {
+				for i := range buffers {
+					if buffers[i] == nil {
+						buffers[i] = outWork.buffer
+						break
+					}
+				}
+			}
+			input, output = reqc, nil
+			outWork = rWork{}
+			dRange = Range{}
 			continue loop
 
 		case inWork := <-input:
@@ -429,6 +444,10 @@ loop:
 			if !stop.keepWorking {
 				return
 			}
+			// Abandon the old region of interest and wait for a new one.
+			input, output = roic, nil
+			roi = Range{}
+			work = rWork{}
 			continue loop
 
 		case roi = <-input:
